@@ -9,6 +9,8 @@
 (*   t        trip_melt_time_s  (fixed point: 1 unit = 10 microseconds; +inf -> PInf, nan -> NaN)                      *)
 (*   val      activation_parameter_value and  fed = the current written into the cell the device has to read           *)
 (*            (both in micro-kA), par / ptype / swid = activation_parameter, protection_type, switch_id                *)
+(* C.jitter: non-threshold current levels were fed with a seeded offset |d| <= 0.4 level (thorough tier); every clause *)
+(* below is insensitive to it because thresholds are integer levels: the stage and the order of two levels are kept.  *)
 (* All required values are computed here from the abstract configuration with the operators of ProtectionDef.          *)
 (* Tolerances: definite times, the zero of a blown fuse and the activation value are compared EXACTLY (they are        *)
 (* passed through); ordering of two times: t2 <= t1 + 1 unit; a melting time inside its bracket of support values:     *)
@@ -95,8 +97,10 @@ Expect == IF IsFuse(Cf) THEN [istart |-> FX(Cf)[1] * IUnit, istop |-> FX(Cf)[Len
                 Tgg |-> IF UsesDT(Cf) THEN TggE(Cf) * TUnit ELSE 0, Tg |-> IF UsesDT(Cf) THEN TgE(Cf) * TUnit ELSE 0,
                 Tms |-> IF UsesIs(Cf) THEN TmsE(Cf) * TUnit ELSE 0, Tgrade |-> IF UsesIs(Cf) THEN TgradeE(Cf) * TUnit ELSE 0]
 Bind_Settings == (Built /\ Valid(Cf)) => \A n \in DOMAIN Expect : Close(C.stored[n], Expect[n], 2, 1)
-\* the harness wrote the current the model asked for
-Bind_Fed == \A p \in Evals : Close(Ob(p).fed, Lvl(p) * IUnit, 2, 1)
+\* the harness wrote the current the model asked for: exactly at a threshold level, within half a level otherwise
+Bind_Fed == \A p \in Evals : LET a == H(p[1])[p[2]] IN
+              IF a.at \/ ~C.jitter THEN Close(Ob(p).fed, a.I * IUnit, 2, 1)
+                 ELSE 2 * Abs(Ob(p).fed - a.I * IUnit) < IUnit
 \* an invalid std type / curve_select is refused
 Bind_Refused == ~Valid(Cf) => ~Built
 \* the bit-identical-threshold escape of Informative is not what makes the clauses pass
@@ -107,7 +111,7 @@ Bind_Finite == \A p \in Evals : Ob(p).trip => IsNum(Ob(p).t) /\ Ob(p).t >= 0
 \*   t = tms * k / ((I/I_s)^alpha - 1) + t_grade = t_grade + tms * k * I_s^alpha / (I^alpha - I_s^alpha)   (ocrelay.py:221,235)
 KU(cu) == CASE cu = "very_inverse" -> 168750 [] cu = "extremely_inverse" -> 1000000 [] cu = "long_inverse" -> 1500000 [] OTHER -> 0
 Pw(cu, a) == IF cu = "extremely_inverse" THEN a * a ELSE a
-Bind_InverseExact == IsRelay(Cf) => \A p \in Evals : (Reg(p) = "s" /\ KU(Cf.curve) > 0 /\ TmsE(Cf) * Pw(Cf.curve, Cf.Is) <= 1400) =>
+Bind_InverseExact == (IsRelay(Cf) /\ ~C.jitter) => \A p \in Evals : (Reg(p) = "s" /\ KU(Cf.curve) > 0 /\ TmsE(Cf) * Pw(Cf.curve, Cf.Is) <= 1400) =>
                        LET num == TmsE(Cf) * KU(Cf.curve) * Pw(Cf.curve, Cf.Is)
                            den == Pw(Cf.curve, Lvl(p)) - Pw(Cf.curve, Cf.Is)
                        IN Close(Ob(p).t, TgradeE(Cf) * TUnit + num \div den, 3, 2)
